@@ -340,6 +340,10 @@ func decodeGoToSexpHelper(r interface{}, depth int, env *Zlisp, preferSym bool) 
 			}
 		}
 		hash, err := MakeHash(pairs, typeName, env)
+		// a record of a declared struct type that fails its field check is
+		// an error, not an empty record: report it before the key order
+		// below overwrites err.
+		panicOn(err)
 		if foundzKeyOrder {
 			err = SetHashKeyOrder(hash, keyOrd)
 			panicOn(err)
